@@ -140,6 +140,37 @@ Proof.
       symmetry. eapply fns_char; eassumption.
 Qed.
 
+(* the exact form of the value at a cut-off: all the entries up to the position where it lost *)
+Lemma expand_loop_worse : forall cs cb fl, nonempty cs -> length (order_of cs) = n ->
+  forall k j value v, j + k = n -> j <= length cs -> prefix_single cs j -> value = good cs j ->
+  expand_loop k g cs n m cb fl value j = EvWorse v ->
+  exists j', j <= j' /\ j' < n /\ v = good cs (S j') /\ prefix_single cs (S j') /\ S j' <= length cs.
+Proof.
+  intros cs cb fl HN HO. induction k as [|k IH]; intros j value v Hjk Hj HP Hv H; simpl in H; [discriminate|].
+  destruct (nth_error cs j) as [c|] eqn:Ec; [|discriminate].
+  destruct (length (cverts c) =? 1) eqn:E1; [|discriminate].
+  apply Nat.eqb_eq in E1. destruct (proj2 (single_length c) E1) as [u Hu].
+  rewrite (order_nth_single j cs c u [] HP Ec Hu) in H.
+  assert (Eent : entries g cs n j u = ent cs j) by (unfold SearchValue.ent; rewrite Ec, Hu; reflexivity).
+  rewrite Eent in H.
+  assert (Hv' : value ++ ent cs j = good cs (S j)) by (rewrite good_S, Hv; reflexivity).
+  assert (HP' : prefix_single cs (S j)).
+  { intros k0 d Hk Hd. destruct (Nat.eq_dec k0 j) as [->|]; [rewrite Ec in Hd; inversion Hd; subst; exists u; exact Hu|].
+    apply (HP k0 d); [lia|exact Hd]. }
+  assert (Hj' : S j <= length cs) by (apply nth_error_Some; rewrite Ec; discriminate).
+  assert (Rec : expand_loop k g cs n m cb fl (value ++ ent cs j) (S j) = EvWorse v ->
+                exists j', j <= j' /\ j' < n /\ v = good cs (S j') /\ prefix_single cs (S j') /\ S j' <= length cs).
+  { intros HR. destruct (IH (S j) _ v ltac:(lia) Hj' HP' Hv' HR) as (j' & A & B & C & D & E).
+    exists j'. repeat split; try assumption; lia. }
+  assert (Here : exists j', j <= j' /\ j' < n /\ value ++ ent cs j = good cs (S j') /\ prefix_single cs (S j') /\ S j' <= length cs).
+  { exists j. repeat split; try assumption; lia. }
+  destruct cb as [|cb0 cbt]; [apply Rec; exact H|].
+  destruct (m <? length (value ++ ent cs j)); [discriminate|].
+  destruct (cmp_list (value ++ ent cs j) (firstn (length (value ++ ent cs j)) (cb0 :: cbt))); try (apply Rec; exact H).
+  destruct (cmp_list (value ++ ent cs j) (firstn (length (value ++ ent cs j)) fl)); try (apply Rec; exact H);
+    inversion H; subst v; exact Here.
+Qed.
+
 (* from a value that already lost: lost again *)
 Lemma expand_loop_dirty : forall cs cb fl k j value c,
   nth_error cs j = Some c -> single c -> prefix_single cs j -> dirty cb fl value ->
